@@ -126,11 +126,33 @@ def run_jobs(pkgdir, ovpath, jobs, workdir, timeout=600, tags='verif'):
                VERIF_JOBS=jpath, VERIF_OUT=opath)
     cmd = ['go', 'test', '-vet=off', '-count=1', '-tags', tags, '-run', '^TestVerifReplay$', '-overlay', ovpath,
            '-timeout', '%ds' % timeout, './' + pkgdir]
+
+    def untracked():
+        try:
+            o = subprocess.run(['git', '-C', REPO, 'status', '--porcelain', '--untracked-files=all', '--', pkgdir],
+                               stdout=subprocess.PIPE, stderr=subprocess.DEVNULL).stdout.decode()
+            return set(l[3:].strip() for l in o.splitlines() if l.startswith('??'))
+        except Exception:
+            return set()
+
+    before = untracked()
+
+    def cleanup():
+        # in-tree test init()s of some packages create files next to the sources (app/kvState.wal):
+        # the replay must leave /repo as it found it
+        for f in untracked() - before:
+            try:
+                os.remove(os.path.join(REPO, f))
+            except OSError:
+                pass
+
     try:
         p = subprocess.run(cmd, cwd=REPO, env=env, stdout=subprocess.PIPE, stderr=subprocess.STDOUT,
                            timeout=timeout + 60)
         log = p.stdout.decode('utf-8', 'replace')
+        cleanup()
     except subprocess.TimeoutExpired as e:
+        cleanup()
         return None, 'replay timeout'
     if not os.path.exists(opath):
         return None, log
